@@ -359,7 +359,7 @@ fn build(
         }
         Delivery::VkOtherCircuit { seed } => {
             let mut rng = Prng::new(*seed, "other-circuit");
-            let s2 = gen_spec(&mut rng, GenOpts { k_min: 4, k_max: 6, allow_phases: true });
+            let s2 = gen_spec(&mut rng, GenOpts { k_min: 4, k_max: 6, allow_phases: true, max_rot: 2 });
             if s2 == cx.base.spec {
                 return None;
             }
